@@ -130,6 +130,49 @@ def decoder_realloc(prog, res):
               "ZSTD_cwksp_free no longer zeroes the descriptor")
 
 
+def mt_resize_failure_atomic(prog, res):
+    """T5h: ZSTDMT_resize replaces the job table and the three pools by larger ones.  The holders (mtctx fields) must never
+    be left empty by a failed replacement: in every function of the resize family the replacement is CREATED before the old
+    object is destroyed (no creator call is reachable after a destructor call), and ZSTDMT_resize stores a helper's result
+    into the holder only after comparing it with NULL (no `holder = expand(holder)`)."""
+    R = "T5h.replace-is-failure-atomic"
+    if not prog.has_fn("ZSTDMT_resize"):
+        return
+    fam = set()
+    todo = ["ZSTDMT_resize"]
+    while todo:
+        nme = todo.pop()
+        if nme in fam or not prog.has_fn(nme):
+            continue
+        g = prog.fn(nme)
+        if not g.file.endswith("zstdmt_compress.c"):
+            continue
+        if nme != "ZSTDMT_resize" and "expand" not in nme.lower():
+            continue
+        fam.add(nme)
+        todo += list(g.callees())
+    res.check(len(fam) >= 5, R, "family", prog.fn("ZSTDMT_resize").loc, "resize family: %s" % sorted(fam), "resize family shrank: %s" % sorted(fam))
+    for nme in sorted(fam):
+        g = prog.fn(nme)
+        destroy = g.find_roots(lambda x: x.get("k") == "call" and (x.get("c") or "").startswith(("ZSTDMT_free", "ZSTD_customFree")))
+        create = g.find_roots(lambda x: x.get("k") == "call" and (x.get("c") or "").startswith(("ZSTDMT_create", "ZSTD_customCalloc", "ZSTD_customMalloc")))
+        if destroy and create:
+            after = g.flow([(b, i + 1) for b, i in destroy])
+            late = [t for t in create if t in after]
+            res.check(not late, R, nme + ":create-before-destroy", g.loc, "the replacement is allocated before the old object is released",
+                      "%s releases the old object before allocating its replacement: when that allocation fails the caller is left without "
+                      "either, every later frame fails (or dereferences NULL) although memory is available again" % nme)
+    r = prog.fn("ZSTDMT_resize")
+    for b, i, x in r.events(lambda y: y.get("k") == "asg"):
+        lhs = strip_casts(x["lhs"])
+        if lhs.get("k") == "mem" and lhs.get("rec") == "ZSTDMT_CCtx_s" and any(is_call(y) and "expand" in (y.get("c") or "").lower() for y in r.walk_resolved(x["rhs"])):
+            res.bad(R, "ZSTDMT_resize:%s" % lhs["f"], "%s:%s" % (r.file, x.get("l")),
+                    "mtctx->%s is overwritten with the helper's result before it is compared with NULL: a failed expansion loses the pool" % lhs["f"])
+    stores = [x for b, i, x in r.events(lambda y: y.get("k") == "asg") if strip_casts(x["lhs"]).get("rec") == "ZSTDMT_CCtx_s"]
+    res.check(len(stores) >= 3, R, "ZSTDMT_resize:stores", r.loc, "%d holder updates, each from a NULL-checked local" % len(stores), "holder updates in ZSTDMT_resize: %d" % len(stores))
+    res.need(R, 5)
+
+
 def run(tier):
     res = Result("C13", tier)
     tus, info = extract(["common", "compress", "decompress", "dictBuilder", "seekable", "legacy"])
@@ -151,6 +194,7 @@ def run(tier):
     res.need("T5e.allocator-before-destructor", 7)
     allocator_pair_validated(prog, res)
     decoder_realloc(prog, res)
+    mt_resize_failure_atomic(prog, res)
     # the serial state's tables are freed with serialState->params.customMem: it must be recorded
     # before the tables are (re)allocated, else a failure in between frees with the wrong allocator
     sr = prog.fn("ZSTDMT_serialState_reset")
